@@ -229,8 +229,7 @@ def holder(obj):
     return _HOLDER[0]('example.com', obj)
 
 
-class _UpperEncoder(object):
-    pass
+_ENC = []
 
 
 def call_observer(obj, name):
@@ -248,7 +247,9 @@ def call_observer(obj, name):
                 is_complex, text = super(Upper, self).__call__(o, level)
                 return is_complex, text.upper() if isinstance(text, str) else text
         saved = Serializable.post_text_encoder
-        mine = Upper()
+        if not _ENC:
+            _ENC.append(Upper())
+        mine = _ENC[0]          # one encoder object for the whole run, as an application would install it
         Serializable.post_text_encoder = mine
 
         def restored():
@@ -259,9 +260,11 @@ def call_observer(obj, name):
         except Exception as e:  # pylint: disable=broad-except
             return 'raised:' + type(e).__name__ + ('' if restored() else ':ENCODER-NOT-RESTORED'), True
         finally:
+            # back to the configuration the other observers run under: the library "restores" the encoder by
+            # pinning it on the subclass, which must not leak into calls made under the default encoder
             Serializable.post_text_encoder = saved
-            for klass in type(obj).__mro__:      # undo a class-level leftover so later cases start clean
-                if klass is not Serializable and 'post_text_encoder' in vars(klass):
+            for klass in corpus.all_subclasses(Serializable):
+                if 'post_text_encoder' in vars(klass):
                     delattr(klass, 'post_text_encoder')
     try:
         a = getattr(type(obj), name)
